@@ -50,7 +50,7 @@ func (w *watchdog) end(id int64) {
 }
 
 func runC14(c *Ctx) {
-	c.res.Rule = "every exported function on: Language values [-2^17,2^17] + int boundaries (String) and a 64-value subset x all other functions; all byte strings of length <=3 over a 12-byte alphabet incl. ill-formed UTF-8 (CheckMnemonic/IsMnemonicValid x 12 language values; MnemonicToSeed for (<=2,<=1) and (<=1,<=2) byte pairs); every 2-byte sequence as one token of an otherwise valid sentence; sizes 0,1,2^10,2^20,2^24 of 'a', U+0301, 0xFF and (<=2^20) U+0020; nil and every entropy length 0..4096; every word count of C09 with a working and a failing source. Oracle: the call returns; a recovered panic or a call exceeding a 180 s deadline is a violation. distinct_nontrivial = distinct (function, argument) cases"
+	c.res.Rule = "every exported function on: Language values [-2^17,2^17] + int boundaries (String) and a 64-value subset x all other functions; all byte strings of length <=3 over a 12-byte alphabet incl. ill-formed UTF-8 (CheckMnemonic/IsMnemonicValid x 12 language values; MnemonicToSeed for (<=2,<=1) and (<=1,<=2) byte pairs); every 2-byte sequence as one token of an otherwise valid sentence; 0..60 list words joined by every two-block pattern of 6 separators; sizes 0,1,2^10,2^20,2^24 of 'a', U+0301, 0xFF and (<=2^20) U+0020; nil and every entropy length 0..4096; every word count of C09 with a working and a failing source. Oracle: the call returns; a recovered panic or a call exceeding a 180 s deadline is a violation. distinct_nontrivial = distinct (function, argument) cases"
 	c.Assume("hang = a single call not returning within 180 s (calls cost microseconds to ~1 s)")
 	wd := &watchdog{calls: map[int64]*inflight{}}
 	stop := make(chan struct{})
@@ -239,6 +239,46 @@ func c14body(c *Ctx, guard func(key, what string, cs map[string]interface{}, f f
 		guard(fmt.Sprintf("Check2:%04x", x), fmt.Sprintf("CheckMnemonic(sentence with token %x)", tok), cs, func() { _ = bip39.CheckMnemonic(s, bip39.English) })
 	})
 	c.AddScope("all 65536 two-byte tokens inside a 12-word sentence", 65536, true, "")
+
+	// 3b. k list words (k = 0..60) joined by every two-block separator pattern: the first j
+	// separators are sep1, the others sep2
+	seps := []string{" ", "\u3000", "\u00a0", "\t", "\u2003", "  "}
+	type sj struct{ k, a, b int }
+	var nsj int64
+	Par(c.NCPU, func(emit func(sj)) {
+		for k := 0; k <= 60; k++ {
+			for a := range seps {
+				for b := range seps {
+					emit(sj{k, a, b})
+					nsj++
+				}
+			}
+		}
+	}, func(j sj) {
+		for _, l := range []int{2, 5} {
+			w := c.M.List[l][0]
+			for cut := 0; cut <= j.k-1 || cut == 0; cut++ {
+				if j.a == j.b && cut > 0 {
+					break
+				}
+				var b strings.Builder
+				for i := 0; i < j.k; i++ {
+					if i > 0 {
+						if i-1 < cut {
+							b.WriteString(seps[j.a])
+						} else {
+							b.WriteString(seps[j.b])
+						}
+					}
+					b.WriteString(w)
+				}
+				s := b.String()
+				cs := map[string]interface{}{"kind": "check", "sentence": hs(s), "lang": l, "expect": "returns"}
+				guard(fmt.Sprintf("CheckSep:%d:%d:%d:%d:%d", j.k, j.a, j.b, cut, l), fmt.Sprintf("CheckMnemonic(%d words, separators %q x%d then %q, %s)", j.k, seps[j.a], cut, seps[j.b], ref.LangNames[l]), cs, func() { _ = bip39.CheckMnemonic(s, Langs[l]) })
+			}
+		}
+	})
+	c.AddScope("0..60 list words joined by two-block separator patterns over 6 separators x 2 languages", nsj, true, "")
 
 	// 4. sizes
 	type big struct {
